@@ -35,10 +35,13 @@ def run(tier, seed, ev, jobs):
     if not ev.samples:
         ev.samples.append({"example_query": results[0]["query"] if results else "", "meaning": "exists code in 000..999: table(code) != owner(code) -> unsat"})
     ev.outside.append("that the plugin functions behave like the typed API beyond type selection (serde_json / dataflow-rs plumbing)")
+    rc = e1.combine(rc, e2rules.run_wrap("C12", tier, seed, ev, jobs))
     return e1.combine(rc, e1.run_e1("C12", tier, seed, ev, jobs))
 
 
 def replay(path):
     import json
+    if json.load(open(path)).get("engine") == "mtsym-wrap":
+        return e2rules.replay_file(path)
     print(open(path).read())
     return EXIT_VIOLATION
